@@ -233,6 +233,7 @@ func c06Plain(s string) bool {
 // generator
 
 type c06Gen struct {
+	made []*term.Term // compounds generated so far for the current term (candidates for repetition)
 	r    *rand.Rand
 	ops  c06Ops
 	pre  []string // names with a prefix definition
@@ -359,8 +360,21 @@ func (g *c06Gen) functorName() string {
 }
 
 func (g *c06Gen) term(depth int) *term.Term {
+	t := g.term1(depth)
+	if t.K == term.KCmp && depth <= 2 && len(g.made) < 16 {
+		g.made = append(g.made, t)
+	}
+	return t
+}
+
+func (g *c06Gen) term1(depth int) *term.Term {
 	if depth <= 0 {
 		return g.leaf()
+	}
+	// the same sub-term again (as when a variable bound to a compound occurs twice): the worker builds equal
+	// compounds of one case as ONE object
+	if len(g.made) > 0 && g.r.Intn(100) < 7 {
+		return g.made[g.r.Intn(len(g.made))]
 	}
 	switch k := g.r.Intn(100); {
 	case k < 22:
@@ -517,7 +531,11 @@ func c06Fixed() []*term.Term {
 	a, b, c := A("a"), A("b"), A("c")
 	neg := func(t *term.Term) *term.Term { return C("-", t) }
 	sub := func(x, y *term.Term) *term.Term { return C("-", x, y) }
+	fa, l12 := C("f", a), L(I(1), I(2))
+	ab := term.WithRep(term.Chars("ab"), "chars")
 	ts := []*term.Term{
+		// the same compound at two non-nested positions
+		C("g", fa, fa), C("g", fa, C("h", fa)), C("-", l12, l12), C("f", ab, ab), L(fa, fa, fa), C("+", C("*", a, b), C("*", a, b)), C("f", C("-", fa), C("-", fa)),
 		neg(neg(a)), C(`\+`, C(`\+`, a)), neg(neg(I(1))), neg(I(1)), I(-1), neg(a), neg(I(-1)), neg(F(1.0)), neg(F(-1.0)), neg(I(0)), neg(F(0.0)),
 		neg(F(math.Copysign(0, -1))), F(math.Copysign(0, -1)),
 		sub(I(1), I(-1)), sub(a, neg(neg(b))), sub(sub(a, b), c), sub(a, sub(b, c)), sub(I(1), sub(I(2), I(3))), sub(a, neg(I(1))), sub(a, I(-1)),
@@ -850,6 +868,7 @@ func (c *c06) Generate(cx *Ctx, chunk int) []*Item {
 		}
 		for len(ts) < c06TermsPerCase {
 			g.nv = 0
+			g.made = nil // repetition only within one term
 			ts = append(ts, g.term(1+g.r.Intn(4)))
 			if len(dirs) > 0 {
 				fam = append(fam, "random_random_table")
